@@ -398,7 +398,14 @@ def _two_d_case(i, rng, tier):
         ey = sorted(rng.sample([-1.0, 0.0, 0.5, 1.0, 2.0, 3.5], rng.randint(2, 4)))
         h = hg.IrregularlyBin(ex, qx, hg.IrregularlyBin(ey, qy, hg.Count(), hg.Count()), hg.Count())
     # points well away from every possible edge: placement by the reported edges is then unambiguous
-    pts = [(rng.choice([-0.77, 0.13, 0.31, 0.63, 0.94, 1.41, 1.93, 2.61, -2.03, 5.07]), rng.choice([-0.93, -0.41, 0.13, 0.61, 0.93, 1.63, -3.03, 4.07]), rng.choice([1.0, 0.5, 2.0])) for _ in range(rng.randint(1, 15))]
+    nan, inf = float("nan"), float("inf")
+    pts = [(rng.choice([-0.77, 0.13, 0.31, 0.63, 0.94, 1.41, 1.93, 2.61, -2.03, 5.07, 0.31, 0.94, nan, inf]), rng.choice([-0.93, -0.41, 0.13, 0.61, 0.93, 1.63, -3.03, 4.07, 0.13, 0.61, nan, -inf]), rng.choice([1.0, 0.5, 2.0])) for _ in range(rng.randint(1, 15))]
+    if kind == "SparselyBin":
+        # +-inf saturates the sparse index: the dense grid over that span cannot be materialised
+        pts = [(x if not math.isinf(x) else 0.31, y if not math.isinf(y) else 0.13, w) for x, y, w in pts]
+    if kind == "SparselyBin" and not any(not (math.isnan(x) or math.isnan(y)) for x, y, _ in pts):
+        # a sparse 2-D histogram without a single datum on both axes has no grid (the accessors say so by raising)
+        pts.append((0.31, 0.13, 1.0))
     for x, y, w in pts:
         h.fill({"x": x, "y": y}, w)
     failures = []
@@ -423,6 +430,8 @@ def _two_d_case(i, rng, tier):
     else:
         want = np.zeros_like(grid)
         for x, y, w in pts:
+            if math.isnan(x) or math.isnan(y):
+                continue
             ix = np.searchsorted(xr, x, side="right") - 1
             iy = np.searchsorted(yr, y, side="right") - 1
             if 0 <= ix < len(xr) - 1 and 0 <= iy < len(yr) - 1:
@@ -441,6 +450,8 @@ def _two_d_case(i, rng, tier):
             wx = [0.0] * len(tx)
             wy = [0.0] * len(ty)
             for x, y, w in pts:
+                if math.isnan(x) or math.isnan(y):
+                    continue  # NaN goes to a nanflow, which no projection bin holds
                 wx[sum(1 for t in tx if t <= x) - 1] += w
                 wy[sum(1 for t in ty if t <= y) - 1] += w
             if list(np.asarray(px.bin_entries(), float)) != wx:
